@@ -100,6 +100,10 @@ Definition merge_changes (chunks : list str) (tag_type : str) : list str := merg
 (* ---- merge_change_groups: items are loose tags or groups ---- *)
 Inductive item := ITag (s : str) | IGroup (g : list str).
 
+(* chunk == '' or chunk == ' ' *)
+Definition skip_group_chunk (chunk : str) : bool :=
+  match chunk with [] => true | _ => str_eqb chunk [32] end.
+
 (* [grp] = the group under construction (chunks newest first) together with current_content *)
 Fixpoint merge_groups_aux (chunks : list str) (tag_type : option str) (st : option (list str * list str)) : list item :=
   let close_marker := match tag_type with Some t => [close_tag_of t] | None => [] end in
@@ -111,10 +115,8 @@ Fixpoint merge_groups_aux (chunks : list str) (tag_type : option str) (st : opti
       | None => []
       end
   | chunk :: rest =>
-      match chunk with
-      | [] => merge_groups_aux rest tag_type st
-      | [32] => merge_groups_aux rest tag_type st
-      | _ =>
+      if skip_group_chunk chunk then merge_groups_aux rest tag_type st
+      else
           let plain (st0 : option (list str * list str)) (track : option str) :=
             let '(g, cc) := match st0 with
                             | None => (rev open_mark, [])
@@ -146,7 +148,6 @@ Fixpoint merge_groups_aux (chunks : list str) (tag_type : option str) (st : opti
               end
             else plain st (if tracks_open name then Some name else None)
           else plain st None
-      end
   end.
 
 Definition merge_change_groups (chunks : list str) (tag_type : option str) : list item :=
